@@ -8,12 +8,7 @@ use std::collections::HashMap;
 use std::sync::Arc;
 
 fn fnv(data: &[u8]) -> u64 {
-    let mut h: u64 = 0xcbf29ce484222325;
-    for b in data {
-        h ^= *b as u64;
-        h = h.wrapping_mul(0x100000001b3);
-    }
-    h
+    fnv64(data)
 }
 
 pub fn files_digest(dir: &str) -> String {
